@@ -400,6 +400,7 @@ func TestProp(t *testing.T) {
 		}
 		out1, err := os.ReadFile(filepath.Join(d1, "p", gorun.DerivedFile))
 		if err != nil {
+			c.Fail(rt, map[string]string{"check": "default-run-no-file"}, "the default run exits 0 but writes no derived.gen.go for a package with derive calls\ncalls: "+strings.Join(d.calls, "; "), d.files, nil)
 			return
 		}
 		prefixes2 := map[string]string{}
